@@ -308,3 +308,24 @@ Proof.
     unfold retM. cbn [omap bind]. unfold view. cbn [h_mtype h_major h_pl h_mic view_payload].
     rewrite Nat2Z.id. reflexivity.
 Qed.
+
+(* the fixed-size identifiers decode to the byte-reversed input whatever the overlap of input and receiver *)
+Theorem ident_unmarshal_overlap : forall h recv data,
+  wf_slice h recv -> wf_slice h data -> slen data = slen recv ->
+  bytes_of (fst (h_ident_unmarshal recv data h)) recv = rev (bytes_of h data).
+Proof.
+  intros h recv data W Wd E.
+  unfold h_ident_unmarshal. rewrite E, Nat.eqb_refl. cbn [negb].
+  unfold bindM, loadM, sl_cpy_bytes, retM. cbn [fst].
+  set (d := rev (bytes_of h data)).
+  assert (Ld : length d = slen recv) by (unfold d; rewrite rev_length, bytes_of_length; auto).
+  rewrite firstn_all2 by lia.
+  set (h' := set_bytes h (sbuf recv) (soff recv) d).
+  assert (W' : wf_slice h' recv).
+  { destruct W as (W0 & W1 & W2). unfold wf_slice, h'. rewrite set_bytes_length, set_bytes_buffer_length. auto. }
+  apply list_ext_nth; [rewrite bytes_of_length; auto|].
+  intros i. destruct (Nat.lt_ge_cases i (slen recv)) as [Hi|Hi].
+  - rewrite bytes_of_nth by auto. unfold h'. destruct W as (W0 & W1 & W2).
+    rewrite set_bytes_nth_in by lia. f_equal. lia.
+  - rewrite !nth_overflow; auto; [lia|rewrite bytes_of_length; auto].
+Qed.
